@@ -264,7 +264,7 @@ func zzVoteService(db *storage.CacheDB, input []byte, height uint32, signers ...
 
 // ZZ_C25_VoteHandler: VoteHandler.MakeDepositProposal on main net, 4 consensus validators (quorum 3).
 // T submissions of the same subject (source chain, height, message) by arbitrary validators, each
-// witnessed by its relayer address or (symbolically) by somebody else; then a second subject carrying
+// witnessed by its relayer address, or naming a validator but witnessed by an arbitrary other address; then a second subject carrying
 // the same cross-chain id is voted through: it must hit the done mark.
 func ZZ_C25_VoteHandler() {
 	T := zzsym.Param("T")
@@ -283,13 +283,16 @@ func ZZ_C25_VoteHandler() {
 	var votedSet [4]bool
 	distinct, releases := 0, 0
 	for t := 0; t < T; t++ {
-		v := zzsym.Choose("voter", 5) // 4: stranger (key 7)
+		v := zzsym.Choose("voter", 6) // 4: stranger (key 7); 5: validator 3 named as relayer, witnessed by somebody else
+		forged := v == 5
+		if forged {
+			v = 3
+		}
 		who := zzValidatorAddr(7)
 		if v < 4 {
 			who = zzValidatorAddr(v)
 		}
 		signer := who
-		forged := zzsym.Bool("witnessIsSomebodyElse")
 		if forged {
 			copy(signer[:], zzsym.Bytes("signer", 20))
 			zzsym.Assume(signer != who)
